@@ -661,13 +661,135 @@ func cmpConstsOfUint16(fn *ssa.Function) map[int64]bool {
 	return out
 }
 
+// c14CookieTiling: the cookie encoders write a sequence of (type, length, value) fields that tile
+// the allocated buffer: every field starts where the previous one ends, its length field is the
+// length of the value written after it, and the last field ends at the end of the buffer. Offsets
+// and lengths are compared as linear forms over the lengths of the cookie's fields.
+func c14CookieTiling(p *ana.Prog, r *ana.Result, enc *ssa.Function, pset *ana.ProverSet) {
+	fname := ana.FuncName(enc)
+	pr := pset.For(enc)
+	type wr struct {
+		off   ana.ILin
+		n     ana.ILin // bytes written
+		val   ssa.Value
+		isU16 bool
+		in    ssa.Instruction
+	}
+	var buf ssa.Value
+	var total ana.ILin
+	var ws []wr
+	undecided := ""
+	ana.Instrs(enc, func(in ssa.Instruction) {
+		if mk, ok := in.(*ssa.MakeSlice); ok && buf == nil {
+			if l, ok := pr.Int(mk.Len, 0); ok {
+				buf, total = mk, l
+			}
+		}
+		c, ok := in.(*ssa.Call)
+		if !ok {
+			return
+		}
+		name := ana.CalleeName(&c.Call)
+		var dst ssa.Value
+		w := wr{in: in}
+		switch {
+		case strings.HasSuffix(name, "bigEndian).PutUint16"):
+			dst, w.val, w.isU16 = c.Call.Args[1], c.Call.Args[2], true
+			w.n = ana.ILin{Coef: map[string]int64{}, C: 2}
+		case name == "builtin.copy":
+			dst, w.val = c.Call.Args[0], c.Call.Args[1]
+			l, ok := pr.Len(c.Call.Args[1], 0)
+			if !ok {
+				undecided = "length of a copied value is not a linear form"
+				return
+			}
+			w.n = l
+		default:
+			return
+		}
+		sl, ok := dst.(*ssa.Slice)
+		if !ok || sl.X != buf || sl.High != nil {
+			undecided = "a write does not go to b[off:] of the allocated buffer"
+			return
+		}
+		if sl.Low == nil {
+			w.off = ana.ILin{Coef: map[string]int64{}}
+		} else if o, ok := pr.Int(sl.Low, 0); ok {
+			w.off = o
+		} else {
+			undecided = "a write offset is not a linear form"
+			return
+		}
+		ws = append(ws, w)
+	})
+	if buf == nil || undecided != "" || len(ws) == 0 || len(ws)%3 != 0 {
+		if undecided == "" {
+			undecided = fmt.Sprintf("%d writes into the buffer (expected a multiple of three: type, length, value)", len(ws))
+		}
+		r.Violate("C14.tags", fname, "cookie-fields-tile-buffer", p.Pos(enc.Pos()), "UNDECIDED: "+undecided)
+		return
+	}
+	// order by offset is the program order on the pinned tree; do not rely on it: sort by the constant
+	// part after checking that consecutive differences are as required
+	pos := ana.ILin{Coef: map[string]int64{}}
+	used := make([]bool, len(ws))
+	find := func(off ana.ILin, u16 bool) int {
+		for i, w := range ws {
+			if !used[i] && w.isU16 == u16 && w.off.String() == off.String() {
+				return i
+			}
+		}
+		return -1
+	}
+	for k := 0; k < len(ws)/3; k++ {
+		ti := find(pos, true)
+		li := find(pos.Add(ana.ILin{Coef: map[string]int64{}, C: 2}, 1), true)
+		if ti < 0 || li < 0 {
+			r.Violate("C14.tags", fname, "cookie-fields-tile-buffer", p.Pos(enc.Pos()), fmt.Sprintf("field %d of the cookie does not start where the previous field ends (expected a type at offset %s and a length at %s+2): Decode(Encode(c)) fails or returns other values when the field lengths differ", k+1, pos.String(), pos.String()))
+			return
+		}
+		used[ti], used[li] = true, true
+		if _, isK := ana.ConstInt(ws[ti].val); !isK {
+			r.Violate("C14.tags", fname, "cookie-fields-tile-buffer", posOf(p, ws[ti].in), "the field type written is not a constant tag")
+			return
+		}
+		voff := pos.Add(ana.ILin{Coef: map[string]int64{}, C: 4}, 1)
+		// value: a copy of n bytes, or a 16-bit value
+		vi := -1
+		for i, w := range ws {
+			if !used[i] && w.off.String() == voff.String() {
+				vi = i
+			}
+		}
+		if vi < 0 {
+			r.Violate("C14.tags", fname, "cookie-fields-tile-buffer", p.Pos(enc.Pos()), fmt.Sprintf("no value is written at offset %s for field %d", voff.String(), k+1))
+			return
+		}
+		used[vi] = true
+		// declared length == bytes written
+		decl, ok := pr.Int(ana.StripConv(ws[li].val), 0)
+		if !ok || decl.String() != ws[vi].n.String() {
+			r.Violate("C14.tags", fname, "cookie-fields-tile-buffer", posOf(p, ws[li].in), fmt.Sprintf("the length field of field %d (%s) is not the number of bytes written as its value (%s)", k+1, decl.String(), ws[vi].n.String()))
+			return
+		}
+		pos = voff.Add(ws[vi].n, 1)
+	}
+	if pos.String() != total.String() {
+		r.Violate("C14.tags", fname, "cookie-fields-tile-buffer", p.Pos(enc.Pos()), fmt.Sprintf("the fields end at %s but the buffer has %s bytes", pos.String(), total.String()))
+		return
+	}
+	r.Ok("C14.tags", fname, "cookie-fields-tile-buffer", p.Pos(enc.Pos()), fmt.Sprintf("%d (type, length, value) fields tile the %s-byte buffer: each starts where the previous ends and declares the length of the value written", len(ws)/3, total.String()))
+}
+
 func c14CookieTags(p *ana.Prog, r *ana.Result) {
+	pset := ana.NewProverSet(p.AllFuncs)
 	for _, typ := range []string{"ServerCookie", "EncryptedServerCookie"} {
 		enc := mustFunc(p, r, "net/ntske", "(*"+typ+").Encode")
 		dec := mustFunc(p, r, "net/ntske", "(*"+typ+").Decode")
 		if enc == nil || dec == nil {
 			continue
 		}
+		c14CookieTiling(p, r, enc, pset)
 		w := putUint16Consts(enc)
 		delete(w, 2) // the constant length 0x2 of the 16-bit value field
 		rd := cmpConstsOfUint16(dec)
